@@ -15,7 +15,7 @@ from pexpect.exceptions import EOF, TIMEOUT
 import pexpect.replwrap as RW
 
 ENCODES = ['pexpect.replwrap.REPLWrapper.__init__', 'pexpect.replwrap.REPLWrapper.run_command',
-           'pexpect.replwrap.REPLWrapper._expect_prompt', 'pexpect.replwrap.REPLWrapper.set_prompt',
+           'pexpect.replwrap.REPLWrapper._expect_prompt',
            'pexpect.spawnbase.SpawnBase.expect_exact', 'pexpect.expect.searcher_string.search']
 STUBS = ['the REPL: a scripted transport that answers each sendline with output + prompt in two reads; kill() recorded',
          'pexpect.expect.time frozen', 'io.StringIO -> PyBuf']
@@ -44,8 +44,10 @@ class Repl(ScriptedSpawn):
         full = out + (P2 if kind else P1)
         if c > len(full):
             raise Skip()
-        self.script.append(('data', full[:c]))
-        self.script.append(('data', full[c:]))
+        if c > 0:
+            self.script.append(('data', full[:c]))
+        if c < len(full):
+            self.script.append(('data', full[c:]))
 
     def kill(self, sig):
         self.kills.append(sig)
@@ -57,10 +59,12 @@ def _clean(x):
     return x.find(P1) < 0 and x.find(P2) < 0 and (x + P1[0]).find(P1) < 0 and (x + P2[0]).find(P2) < 0
 
 
-@obligation(params=dict(o1=Text(3), o2=Text(3), o3=Text(3), c1=Int(0, 5), c2=Int(0, 5), c3=Int(0, 5), shape=Int(0, 2)),
+@obligation(params=dict(o1=Text(2), o2=Text(2), o3=Text(2), c1=Int(0, 4), c2=Int(0, 4), c3=Int(0, 4), shape=Int(0, 2)),
             tags={2: 'two single-line commands', 3: 'a two-line command then a single-line one',
                   4: 'incomplete input: ValueError, then a normal command'},
-            timeout=900, split=('shape',),
+            timeout=900, split=('shape', 'c1'),
+            thorough=dict(params=dict(o1=Text(3), o2=Text(3), o3=Text(3), c1=Int(0, 5), c2=Int(0, 5), c3=Int(0, 5)),
+                          timeout=3000, split=('shape', 'c1', 'c2')),
             note='shape 0: cmd; cmd   1: two-line cmd; cmd   2: incomplete cmd (continuation prompt) ; cmd')
 def Q1_commands(o1, o2, o3, c1, c2, c3, shape):
     shape = pick(shape, 0, 2)
